@@ -63,6 +63,12 @@ fn exes(args: &[String]) -> Vec<(String, String)> {
 }
 
 fn main() {
+    // Configuration seam: the host application's log level. The `log` macros evaluate their
+    // arguments only when the level is enabled, so code that is dead under the default level
+    // runs under ASESIM_LOG=trace; results must not depend on it.
+    if std::env::var("ASESIM_LOG").map(|v| v == "trace").unwrap_or(false) {
+        log::set_max_level(log::LevelFilter::Trace);
+    }
     let args: Vec<String> = std::env::args().collect();
     let cmd = args.get(1).map(|s| s.as_str()).unwrap_or("");
     match cmd {
